@@ -260,7 +260,7 @@ def run(prog, rep):
     # getters
     for gname, kind in (("p_ini_file_parameter_int", "int"), ("p_ini_file_parameter_double", "double"),
                         ("p_ini_file_parameter_boolean", "boolean"), ("p_ini_file_parameter_list", "list"), ("p_ini_file_parameter_string", "string")):
-        g = u.fn(gname)
+        g = u.fn(gname, raw=True).inlined(skip=("pp_ini_file_find_parameter",))
         fc = [c for (b, i, c) in g.calls() if c.get("callee") == "pp_ini_file_find_parameter"]
         okg, msg = len(fc) == 1, "the getter does not look the key up exactly once"
         rets = []
@@ -302,18 +302,18 @@ def run(prog, rep):
     rep.floor("C16.4", 1)
 
     # ---- C16.5 ------------------------------------------------------------------------------------
-    gi = u.fn("p_ini_file_parameter_int")
+    gi = u.fn("p_ini_file_parameter_int", raw=True).inlined(skip=("pp_ini_file_find_parameter",))
     conv = [c for (b, i, c) in gi.calls() if c.get("callee") in ("atoi", "strtol", "strtoul", "atol", "strtoll", "sscanf")]
     oki = len(conv) == 1 and root_var(conv[0]["args"][0]) == (var_assigned_from(gi, "pp_ini_file_find_parameter") or "val") and (conv[0]["callee"] == "atoi" or
                                                                        (conv[0]["callee"] in ("strtol", "atol") and (len(conv[0]["args"]) < 3 or cv(conv[0]["args"][2]) == 10)))
     rep.ob("C16.5", gi, "int", oki, "the int getter converts the text as a decimal number (%s)" % conv[0]["callee"] if oki else
            "the int getter converts with %s: the documented decimal (atoi-style) conversion is changed (e.g. 010 or 0x10 are read in another radix)" %
            (show(conv[0]) if conv else "nothing"), conv[0] if conv else gi.loc[0])
-    gd = u.fn("p_ini_file_parameter_double")
+    gd = u.fn("p_ini_file_parameter_double", raw=True).inlined(skip=("pp_ini_file_find_parameter",))
     conv = [c for (b, i, c) in gd.calls() if c.get("callee") in ("p_strtod", "strtod", "atof", "sscanf")]
     okd = len(conv) == 1 and conv[0]["callee"] == "p_strtod" and root_var(conv[0]["args"][0]) == (var_assigned_from(gd, "pp_ini_file_find_parameter") or "val")
     rep.ob("C16.5", gd, "double", okd, "the double getter uses the locale-independent p_strtod" if okd else "the double getter does not use p_strtod (locale-dependent or different syntax)", gd.loc[0])
-    gb = u.fn("p_ini_file_parameter_boolean")
+    gb = u.fn("p_ini_file_parameter_boolean", raw=True).inlined(skip=("pp_ini_file_find_parameter",))
     lits = sorted(strip_casts(c["args"][1]).get("v") for (b, i, c) in gb.calls() if c.get("callee") == "strcmp" and strip_casts(c["args"][1])["k"] == "str")
     okb = lits == ["FALSE", "TRUE", "false", "true"] and any(c.get("callee") == "atoi" for (b, i, c) in gb.calls())
     rep.ob("C16.5", gb, "boolean", okb, "the boolean getter recognises true/TRUE/false/FALSE, then a positive number" if okb else "the boolean getter's literals are %s" % lits, gb.loc[0])
